@@ -68,10 +68,18 @@ func harnessFor(prop string, idx int64) Harness {
 	if *fHarness != "" {
 		return registry[*fHarness]
 	}
-	if len(hs) == 0 {
+	// (a component harness that does not compile against the tree under check is left out of the build: the
+	// property is then judged by its remaining harnesses)
+	var avail []string
+	for _, n := range hs {
+		if registry[n] != nil {
+			avail = append(avail, n)
+		}
+	}
+	if len(avail) == 0 {
 		return nil
 	}
-	return registry[hs[int(idx)%len(hs)]]
+	return registry[avail[int(idx)%len(avail)]]
 }
 
 // execute performs one simulated run.
